@@ -935,6 +935,14 @@ func (x *Exec) strEq(a, b Val) string {
 	}
 	e := g.Const("streq", SortBool)
 	sk := g.Const("streq.k", SortBV64)
+	{
+		// the same comparison under a quantifier is the uninterpreted `streq` of the same
+		// operands: tie the two, so that instantiating a quantified clause at this operand pair
+		// meets the exact definition below
+		fn := g.Fun("streq", []string{arrSort(SortBV64, SortBV8), SortBV64, SortBV64, arrSort(SortBV64, SortBV8), SortBV64, SortBV64}, SortBool)
+		g.Assume(eq(e, "("+fn+" "+strings.Join(a.C, " ")+" "+strings.Join(b.C, " ")+")"))
+		g.Assume(eq(e, "("+fn+" "+strings.Join(b.C, " ")+" "+strings.Join(a.C, " ")+")"))
+	}
 	same := "(= (select " + a.C[0] + " (bvadd " + a.C[1] + " i!)) (select " + b.C[0] + " (bvadd " + b.C[1] + " i!)))"
 	g.Assume(implies(e, and(eq(a.C[2], b.C[2]), "(forall ((i! (_ BitVec 64))) (=> (bvult i! "+a.C[2]+") "+same+"))")))
 	diff := "(not (= (select " + a.C[0] + " (bvadd " + a.C[1] + " " + sk + ")) (select " + b.C[0] + " (bvadd " + b.C[1] + " " + sk + "))))"
